@@ -400,8 +400,15 @@ impl StaticMetadata {
             named_instances.clear();
         };
 
-        // Claim names for axes and named instances
-        let mut name_id_gen = 255;
+        // Claim names for axes and named instances, starting after the highest
+        // font-specific id the source itself supplies (as fontTools does); otherwise
+        // a generated name and a source record would share an id and one is lost.
+        let mut name_id_gen = names
+            .keys()
+            .map(|k| k.name_id.to_u16())
+            .filter(|id| (256..32768).contains(id))
+            .max()
+            .unwrap_or(255);
         // Spec-reserved names (<= 255) are not allowed in the set of unique reusable strings,
         // with the exception of the default instance's subfamily name which can reuse the
         // existing nameID 2 or 17:
